@@ -114,8 +114,8 @@ impl Exec {
     }
 }
 
-pub trait Prop: Sync {
-    type Case: Serialize + DeserializeOwned + Clone + Send + Sync;
+pub trait Prop: Sync + Send + Copy + 'static {
+    type Case: Serialize + DeserializeOwned + Clone + Send + Sync + 'static;
     fn id(&self) -> &'static str;
     fn level(&self) -> &'static str {
         "exploration"
@@ -158,8 +158,7 @@ pub struct RunOut {
     pub sim_clock_s: u64,
 }
 
-struct SendPtr(*mut SimCtx);
-unsafe impl Send for SendPtr {}
+pub static HUNG: AtomicU64 = AtomicU64::new(0);
 
 pub fn install_panic_hook() {
     let default = std::panic::take_hook();
@@ -194,31 +193,53 @@ fn clean_dir(dir: &str) {
 }
 
 /// Execute one case on a fresh thread under a fresh simulated OS.
+/// Wall-clock budget of one run (normal runs take well under a millisecond): a run that does not finish is a
+/// reported "no progress" violation, not a stuck check.
+pub const WATCHDOG_SECS: u64 = 20;
+
 pub fn run_case<P: Prop>(prop: &P, case: &P::Case, disk: &str, want_events: bool) -> RunOut {
     clean_dir(disk);
     let sp = prop.sim_params(case);
     let io = IoSched::new(sp.faults, sp.chunk_r, sp.chunk_w);
     let mut ctx = Box::new(SimCtx::new(io, sp.hash_seed, sp.clock_s, disk));
-    let ptr = SendPtr(&mut *ctx as *mut SimCtx);
     let mut x = Exec { disk: disk.to_string(), counters: BTreeMap::new(), violations: vec![], nontrivial: false, notes: vec![] };
-    let mut harness_panic = None;
-    std::thread::scope(|s| {
-        let h = std::thread::Builder::new()
-            .stack_size(4 << 20)
-            .spawn_scoped(s, || {
-                let ptr = ptr;
-                simos::install(ptr.0);
-                let r = catch_unwind(AssertUnwindSafe(|| prop.exec(case, &mut x)));
-                let msg = if r.is_err() { simos::with_ctx(|c| c.panic_msg.take()).flatten().or(Some("panic".into())) } else { None };
-                simos::uninstall();
-                msg
-            })
-            .expect("spawn simulation thread");
-        match h.join() {
-            Ok(m) => harness_panic = m,
-            Err(_) => harness_panic = Some("simulation thread died".into()),
+    let (tx, rx) = std::sync::mpsc::channel::<(Exec, Box<SimCtx>, Option<String>)>();
+    let prop_c = *prop;
+    let case_c = case.clone();
+    let h = std::thread::Builder::new()
+        .stack_size(4 << 20)
+        .spawn(move || {
+            simos::install(&mut *ctx as *mut SimCtx);
+            let r = catch_unwind(AssertUnwindSafe(|| prop_c.exec(&case_c, &mut x)));
+            let msg = if r.is_err() { simos::with_ctx(|c| c.panic_msg.take()).flatten().or(Some("panic".into())) } else { None };
+            simos::uninstall();
+            let _ = tx.send((x, ctx, msg));
+        })
+        .expect("spawn simulation thread");
+    let (mut x, ctx, harness_panic) = match rx.recv_timeout(std::time::Duration::from_secs(WATCHDOG_SECS)) {
+        Ok(t) => {
+            let _ = h.join();
+            t
         }
-    });
+        Err(std::sync::mpsc::RecvTimeoutError::Timeout) => {
+            // the simulation thread is left behind (it cannot be killed); the process exits at the end of the check
+            HUNG.fetch_add(1, Ordering::Relaxed);
+            return RunOut {
+                violations: vec![Violation { class: format!("{}:no-progress:watchdog", prop.id()), detail: format!("the run did not finish within {} s of wall time (normal: < 1 ms): some operation does not terminate", WATCHDOG_SECS) }],
+                log_hash: 0,
+                counters: BTreeMap::new(),
+                nontrivial: true,
+                harness_panic: None,
+                events: vec![],
+                api_log: vec![],
+                sim_clock_s: 0,
+            };
+        }
+        Err(_) => {
+            let _ = h.join();
+            return RunOut { violations: vec![], log_hash: 0, counters: BTreeMap::new(), nontrivial: false, harness_panic: Some("simulation thread died".into()), events: vec![], api_log: vec![], sim_clock_s: 0 };
+        }
+    };
     let mut counters = std::mem::take(&mut x.counters);
     let mut add = |k: String, n: u64| {
         if n > 0 {
@@ -635,6 +656,10 @@ pub fn shrink_case<P: Prop>(prop: &P, case: P::Case, class: &str, disk: &str) ->
     let mut cur = case;
     let mut steps = 0u64;
     let mut execs = 0u64;
+    if class.ends_with(":no-progress:watchdog") {
+        // every attempt may hang for the whole watchdog budget: report the case as generated
+        return (cur, 0);
+    }
     'outer: loop {
         let cands = prop.shrink(&cur);
         for c in cands {
